@@ -154,6 +154,18 @@ CLAIMED["C13"] = dict(
 from contracts.C18 import MANIFEST_ENTRY as _C18_ENTRY  # noqa: E402
 CLAIMED["C18"] = dict(_C18_ENTRY)
 
+CLAIMED["C14"] = dict(
+    text="Target resolution: the shared helper is proved equal to the OPC resolution function for all strings (segment-fold loop invariant "
+         "over z3 sequences) and every OOXML / EPUB read site is proved to go through it; the pixel-dimension sniffers are proved against "
+         "the PNG / GIF / BMP / JPEG format specifications over a symbolic byte string (JPEG marker chain by a chain invariant, unbounded) "
+         "and the three OOXML copies are proved to agree; numbering, payload dataflow, content type and the coincidence of unit and "
+         "document views by loop invariants / AST dataflow. 22 obligations fail as recorded known findings (numbering restarts per "
+         "slide/page, gaps after unreadable images, frame extent reported instead of pixel size, ordering by relationship file).",
+    note="Assumed: split('/') / join uninterpreted, zip member reads, pypdf image decoding, mimetypes; behaviour outside each finding's "
+         "exclusion only swept natively (bounded); content-type checks are syntactic.",
+    technique="contract-based deductive verification: sequence/bit-vector VCs over the real AST (z3, cvc5) + AST dataflow at construction sites",
+    design="DESIGN.md §3 C14")
+
 PENDING = {}
 
 ALL = [f"C{i:02d}" for i in range(1, 21)]
